@@ -114,7 +114,8 @@ class MappingPulseTemplate(PulseTemplate, ParameterConstrainer):
                                  for p, expr in template.parameter_mapping.items()}
             measurement_mapping = {k: measurement_mapping[v]
                                    for k, v in template.measurement_mapping.items()}
-            channel_mapping = {k: channel_mapping[v]
+            # a channel the inner template drops stays dropped
+            channel_mapping = {k: None if v is None else channel_mapping[v]
                                for k, v in template.channel_mapping.items()}
             template = template.template
 
